@@ -263,3 +263,33 @@ def check_table(ctx, tu, info):
                 t = tu.tstr(ta[0])
                 ok = any(r.endswith('funcFreeObject<%s>' % t) for r in refs) and any(r.endswith('funcMoveConstruct<%s>' % t) for r in refs)
             ctx.ob('C17.A4', f, 'the function table of T holds free<T> and moveConstruct<T>', ok, key_detail='table entries')
+            # an entry may be left empty (a conditional selecting nullptr) only where the operation really is a no-op / a byte copy for T:
+            # evaluate the entry's initialiser for this instantiation (the conditions are compile-time constants) - for a T that is not
+            # trivially copyable the move entry has to be the real move construction ("moving an AnyData moves the held object")
+            tt = tu.type(ta[0]) if ta and isinstance(ta[0], int) else None
+            if tt is not None and tt.get('rec'):
+                def selected(n, depth=0):
+                    n = f.strip_all_casts(n)
+                    o = f.nodes[n]
+                    if o['cls'] == 'ConditionalOperator' and depth < 6:
+                        ks = f.kids(n)
+                        cv = f.nodes[f.strip_all_casts(ks[0])].get('cv', f.nodes[f.strip_all_casts(ks[0])].get('value'))
+                        if cv is None:
+                            return None
+                        return selected(ks[1] if cv else ks[2], depth + 1)
+                    return n
+                inits = [n for n, o in f.nodes.items() if o['cls'] == 'InitListExpr']
+                mv_null = None
+                for il in inits:
+                    ks = [k for k in f.nodes[il].get('kids', []) if k]
+                    if len(ks) == 2:
+                        sel = selected(ks[1])
+                        if sel is None:
+                            mv_null = None
+                            break
+                        so = f.nodes[sel]
+                        mv_null = so['cls'] in ('CXXNullPtrLiteralExpr', 'GNUNullExpr') or so.get('value') == 0 and so['cls'] == 'IntegerLiteral'
+                if mv_null is not None:
+                    ctx.ob('C17.A4', f, 'the move entry is empty only for a trivially copyable T', (not mv_null) or bool(tt.get('trivcopy')),
+                           detail='T = %s has a non-trivial copy/move constructor, yet its table has no move entry: moving the AnyData copies bytes instead of moving the object'
+                                  % tu.tstr(ta[0]), key_detail='move entry present')
